@@ -69,7 +69,7 @@ def strip_lean_comments(text):
 def reachable_lean_files():
     """the files of the deliverable: everything imported (transitively) from the library
     root and the driver roots; work-in-progress files that nothing imports are not part of it"""
-    roots = [f for f in ("Wormhole.lean", "Main.lean", "DbMain.lean", "RegMain.lean", "Wormhole/Tie/All.lean") if os.path.exists(os.path.join(LEAN, f))]
+    roots = [f for f in ("Wormhole.lean", "Main.lean", "DbMain.lean", "RegMain.lean", "Wormhole/Tie/All.lean", "Wormhole/Tie/WsReject.lean") if os.path.exists(os.path.join(LEAN, f))]
     seen, todo = set(), list(roots)
     while todo:
         f = todo.pop()
@@ -403,8 +403,10 @@ def main():
         ok = b["driver_ok"] and b["proofs_ok"]
         import sqltie
         st = sqltie.run()
-        print("setup: driver_ok=%s proofs_ok=%s sql_tie=%s (%d statements, %d/%d theorems)" % (
-            b["driver_ok"], b["proofs_ok"], st["status"], st["statements"], st["discharged"], st["theorems"]))
+        sw = sqltie.run_ws()
+        print("setup: driver_ok=%s proofs_ok=%s sql_tie=%s (%d statements, %d/%d theorems) ws_tie=%s (%d/%d theorems)" % (
+            b["driver_ok"], b["proofs_ok"], st["status"], st["statements"], st["discharged"], st["theorems"],
+            sw["status"], sw["discharged"], sw["theorems"]))
         sys.exit(0 if b["driver_ok"] else 2)
     pid = a.pid
     if pid not in PROPS:
@@ -488,7 +490,17 @@ def main():
         except Exception as e:
             sql_tie = {"status": "not-run", "detail": "%s: %s" % (type(e).__name__, e)}
         cov["sql_tie"] = sql_tie
-        if sql_tie["status"] != "tied":
+        try:
+            ws_tie = sqltie.run_ws()
+        except Exception as e:
+            ws_tie = {"status": "not-run", "detail": "%s: %s" % (type(e).__name__, e)}
+        cov["ws_validation_tie"] = ws_tie
+        if ws_tie["status"] != "tied":
+            log("NOTE: the static tie of the validation layer of server_websocket.py is %s (%s); widening the search on the code" % (
+                ws_tie["status"], ws_tie.get("detail", "")[:300]))
+            if sql_tie["status"] == "tied":
+                sql_tie = dict(sql_tie, status="ws-" + ws_tie["status"])     # (widen the search below)
+        if sql_tie["status"] not in ("tied",) and not sql_tie["status"].startswith("ws-"):
             log("NOTE: the static SQL tie is %s (%s): the model's relational primitives are no longer known statically to "
                 "mean the statements of server.py; widening the search on the code" % (
                     sql_tie["status"], "; ".join(sql_tie.get("functions_untied", [])) or sql_tie.get("detail", "")[:300]))
